@@ -131,3 +131,80 @@ func RuleE5(c *Ctx) {
 		fmt.Sprintf("phi(0, y, z) = (%s, %s, %s) is not a point; the delegation lies behind the X != 0 arm of a test of the operand's X", img[0], img[1], img[2]))
 	c.FloorN("E5", 1, 1, "delegations folded")
 }
+
+// ---------------------------------------------------------------------------
+// N3 — Normalize scales by the inverse of Z
+
+// RuleN3 folds Element.Normalize on a generic projective point (X, Y, Z symbols, Z neither zero nor one), entering the
+// dependency's conversion when the wrapper delegates to it: the element must come out as (X/Z, Y/Z, 1) and the call
+// must succeed; for Z = 0 it must fail and leave the element as it was.
+func RuleN3(c *Ctx) {
+	c.Rule("N3", "Element.Normalize folded on a generic projective point (symbols X, Y, Z; the dependency's FromProj entered when used): the element becomes (X * inv(Z), Y * inv(Z), 1) with a nil error; with Z = 0 it returns an error and writes nothing")
+	fn := c.P.Fn("banderwagon", "Element", "Normalize")
+	if fn == nil {
+		c.Unresolved("N3", "banderwagon.(*Element).Normalize")
+		return
+	}
+	c.Saw(core.FnName(fn))
+	key := "Normalize:generic-point"
+	sym := func(n string) *fterm { return &fterm{op: "sym", s: n} }
+	x, y, z := sym("X"), sym("Y"), sym("Z")
+	run := func(zv *fterm) (*fobj, any, error) {
+		o := &fobj{slots: []any{x, y, zv}}
+		fo := &folder{limit: 100_000, symGlobals: true, enterDeps: true, generic: true}
+		res, err := fo.Fold(fn, []any{fptr{o, 0}})
+		return o, res, err
+	}
+	o, res, err := run(z)
+	if err != nil {
+		c.Und("N3", key, fn.Pos(), "cannot fold Normalize: "+err.Error())
+		c.FloorN("N3", 1, 0, "cases folded")
+		return
+	}
+	var bad []string
+	zi := fInv(z)
+	want := []string{fComm("mul", fOne, x, zi).String(), fComm("mul", fOne, y, zi).String(), "1"}
+	for i, nm := range []string{"X", "Y", "Z"} {
+		got := "?"
+		if t, ok := o.slots[i].(*fterm); ok {
+			got = t.String()
+		}
+		if got != want[i] {
+			bad = append(bad, fmt.Sprintf("%s becomes %s, expected %s", nm, got, want[i]))
+		}
+	}
+	if res != nil {
+		bad = append(bad, "a generic point is not normalised successfully (non-nil error)")
+	}
+	// Z = 0: an error, nothing written
+	o0, res0, err0 := run(fZero)
+	switch {
+	case err0 != nil:
+		bad = append(bad, "cannot fold the Z = 0 case: "+err0.Error())
+	default:
+		if t, ok := o0.slots[0].(*fterm); !ok || t != x {
+			bad = append(bad, "with Z = 0 the element is written")
+		}
+		if res0 == nil {
+			bad = append(bad, "with Z = 0 no error is returned")
+		}
+	}
+	// Z = 1: unchanged, nil
+	o1, res1, err1 := run(fOne)
+	switch {
+	case err1 != nil:
+		bad = append(bad, "cannot fold the Z = 1 case: "+err1.Error())
+	default:
+		tx, okx := o1.slots[0].(*fterm)
+		ty, oky := o1.slots[1].(*fterm)
+		tz, okz := o1.slots[2].(*fterm)
+		if !okx || !oky || !okz || tx.String() != "X" || ty.String() != "Y" || tz.String() != "1" {
+			bad = append(bad, "an element with Z = 1 does not stay (X, Y, 1)")
+		}
+		if res1 != nil {
+			bad = append(bad, "an element with Z = 1 is not normalised successfully")
+		}
+	}
+	c.Check(len(bad) == 0, "N3", key, fn.Pos(), strings.Join(bad, "; "), "(X, Y, Z) -> (X*inv(Z), Y*inv(Z), 1), nil; Z = 1 -> unchanged; Z = 0 -> error, element untouched")
+	c.FloorN("N3", 1, 1, "cases folded")
+}
